@@ -6,6 +6,7 @@ package fiber
 
 import (
 	"errors"
+	"github.com/tinylib/msgp/msgp"
 	"sync"
 
 	"github.com/gofiber/fiber/v3/binder"
@@ -305,6 +306,12 @@ func (r *Redirect) parseAndClearFlashMessages() {
 		stale[i] = redirectionMsg{}
 	}
 	r.c.flashMessages = r.c.flashMessages[:0]
+
+	// Every message takes at least one byte: an announced length beyond
+	// the size of the cookie is malformed (and must not be allocated).
+	if n, _, err := msgp.ReadArrayHeaderBytes(cookieValue); err != nil || uint64(n) > uint64(len(cookieValue)) {
+		return
+	}
 
 	if _, err := r.c.flashMessages.UnmarshalMsg(cookieValue); err != nil {
 		// not a well-formed encoding: no messages at all
